@@ -229,4 +229,113 @@ Proof.
   - exists P. split; [exact HP|]. split; [exact HsP|]. intros i Hi. rewrite (HE i Hi).
     apply sum_idx_ext. intros J HJ. f_equal. apply tucker_weight_entry. now rewrite Hfs.
 Qed.
+
+(* ---------- CP_PLSR, ring regime ---------- *)
+Lemma tabulate_ext {B} s (f g : list nat -> B) : (forall idx, inb s idx -> f idx = g idx) -> tabulate s f = tabulate s g.
+Proof.
+  intros H. unfold tabulate. f_equal. apply map_ext_in. intros k Hk. apply in_seq in Hk.
+  apply H. apply unravel_inb. lia.
+Qed.
+
+Section Replay.
+Variable inner : tensor F -> tensor F -> list (tensor F) * tensor F.
+Variable lstsq : list (list F) -> list F -> list F.
+
+(* transform replays the score / deflation sequence of fit, whatever the black boxes return *)
+Lemma transform_replays_fit k : forall X Y T,
+  transform_cols Op X (map (c_load (F:=F)) (fit_loop Op inner lstsq k X Y T)) = map (c_score (F:=F)) (fit_loop Op inner lstsq k X Y T).
+Proof.
+  induction k; intros X Y T; [reflexivity|].
+  cbn [fit_loop map transform_cols c_load c_score]. f_equal. apply IHk.
+Qed.
+
+Theorem fit_transform_train ncomp X Y :
+  fit_transform_X Op (fit Op inner lstsq ncomp X Y) X =
+  cols_to_matrix Op (nsamp X) (fitted_scores (fit Op inner lstsq ncomp X Y)).
+Proof.
+  unfold fit_transform_X, transform, loadings, fitted_scores, fit. cbn [X_mean_ comps].
+  now rewrite transform_replays_fit.
+Qed.
+End Replay.
+
+Lemma shape_center X m : shape (center Op X m) = shape X. Proof. reflexivity. Qed.
+Lemma shape_shift X c : shape (shift Op X c) = shape X. Proof. reflexivity. Qed.
+
+Lemma inb_tl s idx : inb s idx -> inb (tl s) (tl idx).
+Proof. destruct s, idx; simpl; tauto. Qed.
+
+(* mean-centring lemma, ring part: subtracting the shifted mean from the shifted data *)
+Theorem center_shift X m c : shape m = sshape X ->
+  center Op (shift Op X c) (tadd Op m c) = center Op X m.
+Proof.
+  intros Hm. unfold center. rewrite shape_shift. apply tabulate_ext. intros idx Hi.
+  unfold Regress.tget at 1. unfold shift. rewrite get_tabulate by exact Hi.
+  unfold Regress.tget at 3. unfold tadd. rewrite get_tabulate by (rewrite Hm; apply inb_tl; exact Hi).
+  fold (tget X idx). ring.
+Qed.
+
+(* sums are invariant under re-ordering *)
+Definition lsum (l : list F) : F := fold_right (fun x acc => fadd Op acc x) (f0 Op) l.
+Lemma lsum_app a b : lsum (a ++ b) = fadd Op (lsum b) (lsum a).
+Proof. induction a; simpl; [ring | rewrite IHa; ring]. Qed.
+Lemma fsumn_lsum n f : fsumn n f = lsum (map f (seq 0 n)).
+Proof.
+  unfold Regress.fsumn. induction n; [reflexivity|].
+  rewrite seq_S, map_app, lsum_app. cbn [bigsum]. rewrite IHn. simpl. ring.
+Qed.
+Lemma lsum_perm l l' : Permutation.Permutation l l' -> lsum l = lsum l'.
+Proof. induction 1; simpl; try congruence; [ring]. Qed.
+Lemma map_nth_seq (p : list nat) : map (fun i => nth i p 0) (seq 0 (length p)) = p.
+Proof.
+  apply nth_ext with (d := 0) (d' := 0); [now rewrite map_length, seq_length|].
+  intros k Hk. rewrite map_length, seq_length in Hk.
+  rewrite (nth_map' (fun i => nth i p 0) _ _ 0) by (now rewrite seq_length). now rewrite seq_nth.
+Qed.
+Theorem fsumn_perm n p f : Permutation.Permutation p (seq 0 n) -> fsumn n (fun i => f (nth i p 0)) = fsumn n f.
+Proof.
+  intros H. rewrite !fsumn_lsum.
+  assert (Hl : length p = n) by (rewrite (Permutation.Permutation_length H); apply seq_length).
+  rewrite <- (map_map (fun i => nth i p 0) f). rewrite <- Hl at 1. rewrite map_nth_seq.
+  apply lsum_perm. now apply Permutation.Permutation_map.
+Qed.
+
+Lemma perm_bound n p i : Permutation.Permutation p (seq 0 n) -> i < n -> nth i p 0 < n.
+Proof.
+  intros H Hi. assert (Hl : length p = n) by (rewrite (Permutation.Permutation_length H); apply seq_length).
+  assert (In (nth i p 0) (seq 0 n)) by (eapply Permutation.Permutation_in; [exact H | apply nth_In; lia]).
+  apply in_seq in H0. lia.
+Qed.
+
+Lemma tget_perm_samples p X i J n sx : shape X = n :: sx -> i < n -> inb sx J ->
+  tget (perm_samples Op p X) (i :: J) = tget X (nth i p 0 :: J).
+Proof.
+  intros Hs Hi HJ. unfold Regress.tget at 1. unfold perm_samples.
+  rewrite get_tabulate by (rewrite Hs; cbn [inb]; auto). reflexivity.
+Qed.
+
+(* the mean over the samples does not see their order (no property of the division is used) *)
+Theorem mean0_perm p X n sx : shape X = n :: sx -> Permutation.Permutation p (seq 0 n) ->
+  mean0 Op (perm_samples Op p X) = mean0 Op X.
+Proof.
+  intros Hs Hp. unfold mean0, sshape, nsamp. cbn [perm_samples tabulate shape]. rewrite Hs. cbn [hd tl].
+  apply tabulate_ext. intros J HJ. f_equal.
+  rewrite <- (fsumn_perm n p (fun i => tget X (i :: J)) Hp).
+  apply fsumn_ext. intros i Hi. apply (tget_perm_samples p X i J n sx); auto.
+Qed.
+
+(* permutation equivariance of mean-centring *)
+Theorem center_perm p X n sx : shape X = n :: sx -> Permutation.Permutation p (seq 0 n) ->
+  center Op (perm_samples Op p X) (mean0 Op (perm_samples Op p X)) = perm_samples Op p (center Op X (mean0 Op X)).
+Proof.
+  intros Hs Hp. rewrite (mean0_perm p X n sx Hs Hp).
+  set (m := mean0 Op X).
+  change (tabulate (shape X) (fun idx => fsub Op (tget (perm_samples Op p X) idx) (tget m (tl idx))) =
+          tabulate (shape X) (fun idx => tget (center Op X m) (nth (hd 0 idx) p 0 :: tl idx))).
+  apply tabulate_ext. intros idx Hi. rewrite Hs in Hi.
+  destruct (inb_cons_inv _ _ _ Hi) as (i & J & -> & Hin & HJ). cbn [hd tl].
+  rewrite (tget_perm_samples p X i J n sx Hs Hin HJ).
+  unfold Regress.tget at 3. unfold center. 
+  rewrite get_tabulate by (rewrite Hs; cbn [inb]; split; [apply perm_bound; assumption | exact HJ]).
+  reflexivity.
+Qed.
 End Ring.
